@@ -159,3 +159,126 @@ func H_C15_text() {
 	vobserve("len", uint64(len(s)))
 	vcover("end")
 }
+
+// H_C15_reject: binary timestamps whose calendar fields are chosen by solver variables from ranges that straddle
+// the legal limits (month 0..13, day 0..32, hour 0..25, minute / second 0..61, offset +-1441 minutes, year 0), one
+// or two fields varying at a time around a base date in a leap or a non-leap year, with date-only or time
+// precision. The independent decoder's calendar check says whether the encoding is legal; the Reader must reject
+// exactly the impossible ones (and accept the rest with the same fields). Field values are forked (concrete on
+// each path): the standard library's calendar arithmetic is not decided symbolically.
+func H_C15_reject() {
+	years := []int{2021, 2020, 1900, 2000, 1, 9999, 0}
+	year := years[vnondetInt(0, len(years)-1)]
+	month, day, hour, minute, second := 2, 28, 10, 30, 30
+	off := 0
+	which := vnondetInt(0, 5)
+	switch which {
+	case 0:
+		month = vnondetInt(0, 13)
+		day = []int{1, 28, 29, 30, 31, 32}[vnondetInt(0, 5)]
+	case 1:
+		month = []int{1, 2, 4, 12}[vnondetInt(0, 3)]
+		day = vnondetInt(0, 32)
+	case 2:
+		hour = vnondetInt(22, 25)
+	case 3:
+		minute = vnondetInt(58, 61)
+	case 4:
+		second = vnondetInt(58, 61)
+	default:
+		off = []int{-1441, -1440, -1439, -1, 1, 1439, 1440, 1441}[vnondetInt(0, 7)]
+	}
+	prec := vnondetInt(1, 5) // year, month, day, minute, second
+	var body []byte
+	if off == 0 {
+		body = []byte{0x80}
+	} else {
+		body = appendVarIntRef(nil, int64(off))
+	}
+	body = vCat(body, appendVarUintRef(nil, uint64(year)))
+	if prec >= 2 {
+		body = append(body, 0x80|byte(month))
+	}
+	if prec >= 3 {
+		body = append(body, 0x80|byte(day))
+	}
+	if prec >= 4 {
+		body = append(body, 0x80|byte(hour), 0x80|byte(minute))
+	}
+	if prec >= 5 {
+		body = append(body, 0x80|byte(second))
+	}
+	doc := vCat(vBVM, vTLV(0x60, body...), []byte{0x20})
+	d, ok := refBinDecode(doc, nil)
+	vassume(!d.unsure)
+	r := NewReaderBytes(doc)
+	var evs []vEv
+	stepErr := vTraverse(r, 0, 4, false, &evs)
+	if !ok {
+		rejected := r.Err() != nil || stepErr || (len(evs) > 0 && evs[0].accErr)
+		switch {
+		case year == 0:
+			vassert(rejected, "a binary timestamp with year 0 is rejected")
+		case which <= 1:
+			vassert(rejected, "a binary timestamp with an impossible month or day is rejected")
+		case which == 2:
+			vassert(rejected, "a binary timestamp with hour 24 or more is rejected")
+		case which == 3:
+			vassert(rejected, "a binary timestamp with minute 60 or more is rejected")
+		case which == 4:
+			vassert(rejected, "a binary timestamp with second 60 or more is rejected")
+		default:
+			vassert(rejected, "a binary timestamp with an offset of 24 hours or more is rejected")
+		}
+		vcover("rejected")
+	} else {
+		vassert(r.Err() == nil && !stepErr && len(evs) == 2 && !evs[0].accErr, "a legal binary timestamp is accepted")
+		ts := evs[0].ts
+		u := ts.dateTime.UTC()
+		f := d.user()[0].ts
+		vassert(u.Year() == int(f.year) && int(u.Month()) == int(f.month) && u.Day() == int(f.day), "date fields are read as encoded")
+		if prec >= 4 {
+			vassert(u.Hour() == int(f.hour) && u.Minute() == int(f.minute) && u.Second() == int(f.second), "time fields are read as encoded")
+		}
+		vcover("accepted")
+	}
+	vcover("end")
+}
+
+// reference VarUInt / VarInt encoders (specification: 7 bits per byte, stop bit on the last; sign in bit 6 of the first)
+func appendVarUintRef(b []byte, v uint64) []byte {
+	var tmp []byte
+	for {
+		tmp = append([]byte{byte(v & 0x7F)}, tmp...)
+		v >>= 7
+		if v == 0 {
+			break
+		}
+	}
+	tmp[len(tmp)-1] |= 0x80
+	return append(b, tmp...)
+}
+
+func appendVarIntRef(b []byte, v int64) []byte {
+	neg := v < 0
+	m := uint64(v)
+	if neg {
+		m = uint64(-v)
+	}
+	var tmp []byte
+	for {
+		tmp = append([]byte{byte(m & 0x7F)}, tmp...)
+		m >>= 7
+		if m == 0 {
+			break
+		}
+	}
+	if tmp[0]&0x40 != 0 {
+		tmp = append([]byte{0}, tmp...)
+	}
+	if neg {
+		tmp[0] |= 0x40
+	}
+	tmp[len(tmp)-1] |= 0x80
+	return append(b, tmp...)
+}
